@@ -40,6 +40,9 @@ pub struct WorldSpec {
     /// seed for the probes' own choices (which order to probe, which id to query)
     #[serde(default)]
     pub probe_seed: u64,
+    /// markers that additionally list required attributes (still restricted / unrestricted as per `markers`)
+    #[serde(default)]
+    pub marker_required_attrs: BTreeMap<String, Vec<String>>,
 }
 
 #[derive(Clone, Debug, Serialize, Deserialize, PartialEq)]
